@@ -6,7 +6,7 @@ SPEC = hdr_spec(
     prefixes={"C11"}, profiles=[("saveload", 8), ("mixed", 2)],
     rule=GEN_RULE + "`dump; save; load|loadd; dump` at arbitrary positions, repeated generations, branch files appended to after pruning, continuing submissions on the "
          "loaded repository; retained depth = side branches whose fork point is within the load depth; non-trivial = at least 8 submissions",
-    props_file="C11", extra=spine_scripts(['files']), thorough_n=5000,
+    props_file="C11", extra=spine_scripts(['files', 'shrink']), thorough_n=5000,
     assumptions=["legacy version-0 header files (migration) are not generated: the model returns 'migrate: not modelled' for them; empty storage is covered"],
     partial_note="for LINEAR chains (one branch, any length, any load depth >= 0) Save-then-Load observational equivalence is a theorem (C11_save_load_linear: tip, header at "
                  "every height from memory or files, height of every hash incl. pruned ones, invalid list). With side branches (sort + link of the loaded branches), repeated "
